@@ -66,7 +66,7 @@ def main() -> int:
             shutil.rmtree(tmp, ignore_errors=True)
     pairs = []
     for m in cat:
-        props = PROPS if (args.all or m["kind"] == "preserve") else m["props"]
+        props = PROPS if (args.all or m["kind"] in ("preserve", "unseen")) else m["props"]
         if args.props:
             props = [p_ for p_ in props if p_ in args.props.split(",")]
         for p in props:
@@ -91,6 +91,13 @@ def main() -> int:
         elif m["kind"] == "preserve":
             line += " silent" if not caught and not err else f" FALSE-ALARM {caught} ERR {err}"
             bad += bool(caught or err)
+        elif m["kind"] == "unseen":
+            line += f" no-refutation ERR {err}" if not caught else f" FALSE-ALARM {caught} ERR {err}"
+            bad += bool(caught)
+        elif m["kind"] == "undecided":
+            passed = sorted(exp - set(caught) - set(err))
+            line += f" caught={caught} EXIT2={err}" + (f" PASSED={passed}" if passed else "")
+            bad += bool(passed)
         else:
             missed = sorted(exp - set(caught))
             extra = sorted(set(caught) - exp)
